@@ -72,7 +72,37 @@ def perturb(rng, table, level=0.3, drop=0.0, spurious=0.0, gene=None):
     return out
 
 
-def make_coverage(gene, profile, table, low=None, indels=None, extra=None):
+class FakeSam:
+    """Stands for the Sample a Coverage belongs to: only what the stages read (phase records, fusion counter)."""
+
+    def __init__(self, phases):
+        self.phases = phases
+        self._fusion_counter = {}
+        self.name = "verif"
+        self.is_long_read = False
+
+
+def plant_phases(rng, gene, bag_variants, sites, per_copy=12, noise=0.0):
+    """Fragment phase records {name: {pos: op}} for haplotype copies carrying `bag_variants[k]`:
+    each fragment covers 1-4 neighbouring catalogued sites and shows the copy's allele there."""
+    sites = sorted(sites)
+    out = {}
+    if len(sites) < 2:
+        return out
+    for k, vs in enumerate(bag_variants):
+        by = {m.pos: m.op for m in vs}
+        for f in range(per_copy):
+            i = rng.randrange(len(sites))
+            w = sites[i : i + rng.choice([1, 2, 2, 3, 4])]
+            rec = {p: by.get(p, "_") for p in w}
+            if noise and rng.random() < noise:
+                p = rng.choice(w)
+                rec[p] = "_" if rec[p] != "_" else rng.choice(["A>C", "G>T", "_"])
+            out[f"c{k}f{f}"] = rec
+    return out
+
+
+def make_coverage(gene, profile, table, low=None, indels=None, extra=None, sam=None):
     """table: {pos: {op: n_good}}, low: {pos: {op: (n_lowbase, n_lowmap)}},
     extra: {pos: {op: [(mapq, baseq), ...]}} arbitrary observations."""
     from aldy.coverage import Coverage
@@ -89,7 +119,7 @@ def make_coverage(gene, profile, table, low=None, indels=None, extra=None):
         for op, quals in ops.items():
             cov[pos].setdefault(op, [])
             cov[pos][op] = cov[pos][op] + [tuple(q) for q in quals]
-    return Coverage(gene, profile, None, dict(cov), indels, {})
+    return Coverage(gene, profile, sam, dict(cov), indels, {})
 
 
 def realistic_indels(table):
